@@ -194,6 +194,15 @@ pub trait Reader<'de> {
         requires self.wf(),
         ensures r.is_err() ==> err_ok(r.unwrap_err(), self.data());
 
+    // deferred-UTF-8 bookkeeping (src/reader.rs): offset of the first invalid byte at/after the last validated position
+    // (usize::MAX when there is none); `check_invalid_utf8` re-validates from the reader position on. No functional
+    // contract (T4) beyond leaving the document and the position alone.
+    fn next_invalid_utf8(&self) -> (r: usize)
+        requires self.wf();
+    fn check_invalid_utf8(&mut self)
+        requires old(self).wf(),
+        ensures final(self).wf(), final(self).data() == old(self).data(), final(self).idx() == old(self).idx();
+
     // re-attach a sub-slice to its owner (Bytes/FastStr carriers are T4): the bytes are the same
     fn slice_ref(&self, subset: &'de [u8]) -> (r: JsonSlice<'de>)
         requires self.wf(),
